@@ -228,7 +228,7 @@ func runC19Caps(c *Ctx, cachedFlavour bool) {
 	go func() { got <- capsOf() }()
 	select {
 	case <-entered:
-	case <-time.After(2 * time.Second):
+	case <-time.After(10 * time.Second):
 		close(gate)
 		c.Cov.Fail(Failure{Kind: "crash", Clause: "setup", Signature: "c19conc-caps-no-entry", Line: line})
 		return
@@ -248,10 +248,101 @@ func runC19Caps(c *Ctx, cachedFlavour bool) {
 	c.Cov.Hit("caps-answer-immutable")
 }
 
+// c19cPanicCached: a cached child whose allocations panic while `boom` is set (a reporter that refuses a registration
+// by panicking, as the Prometheus reporter does by default)
+type c19cPanicCached struct {
+	c19cCached
+	boom   int32
+	allocs int64
+}
+
+func (c *c19cPanicCached) maybe() {
+	atomic.AddInt64(&c.allocs, 1)
+	if atomic.CompareAndSwapInt32(&c.boom, 1, 0) {
+		panic("c19: child refuses this allocation")
+	}
+}
+func (c *c19cPanicCached) AllocateCounter(n string, t map[string]string) tally.CachedCount {
+	c.maybe()
+	return c.c19cCached.AllocateCounter(n, t)
+}
+func (c *c19cPanicCached) AllocateGauge(n string, t map[string]string) tally.CachedGauge {
+	c.maybe()
+	return c.c19cCached.AllocateGauge(n, t)
+}
+func (c *c19cPanicCached) AllocateTimer(n string, t map[string]string) tally.CachedTimer {
+	c.maybe()
+	return c.c19cCached.AllocateTimer(n, t)
+}
+func (c *c19cPanicCached) AllocateHistogram(n string, t map[string]string, b tally.Buckets) tally.CachedHistogram {
+	c.maybe()
+	return c.c19cCached.AllocateHistogram(n, t, b)
+}
+
+// runC19AllocPanic: a child panics once inside an allocation and the caller recovers; every later allocation on the
+// multi reporter must still reach every child exactly once (a lock left behind would block them), and a value reported
+// through a handle allocated afterwards reaches every child.
+func runC19AllocPanic(c *Ctx, kind int) {
+	a, b := &c19cPanicCached{}, &c19cPanicCached{}
+	m := multi.NewMultiCachedReporter(a, b)
+	kinds := []string{"counter", "gauge", "timer", "histogram"}
+	alloc := func(name string) {
+		switch kind {
+		case 0:
+			m.AllocateCounter(name, nil)
+		case 1:
+			m.AllocateGauge(name, nil)
+		case 2:
+			m.AllocateTimer(name, nil)
+		default:
+			m.AllocateHistogram(name, nil, tally.ValueBuckets{1})
+		}
+	}
+	line := fmt.Sprintf("cached multi reporter, two children; child 1 panics once inside Allocate (%s), recovered; then two more allocations and a counter report", kinds[kind])
+	atomic.StoreInt32(&b.boom, 1)
+	if p, _ := catch(func() { alloc("first") }); !p {
+		c.Cov.Fail(Failure{Kind: "bad-op", Clause: "harness", Signature: "c19conc-alloc-fault-not-injected", Line: line})
+		return
+	}
+	done := make(chan struct{})
+	var h tally.CachedCount
+	go func() {
+		defer close(done)
+		catch(func() {
+			alloc("second")
+			h = m.AllocateCounter("third", nil)
+			h.ReportCount(5)
+		})
+	}()
+	select {
+	case <-done:
+	case <-time.After(8 * time.Second):
+		c.Cov.Fail(Failure{Kind: "crash", Clause: "no-deadlock", Signature: "c19conc-lock-held-after-child-panic", Line: line,
+			Reply: "allocations on the multi reporter are stuck 8 s after a child's recovered panic"})
+		return
+	}
+	// first: child 0 once (+ child 1 once, panicking); second and third: once on each child
+	if na, nb := atomic.LoadInt64(&a.allocs), atomic.LoadInt64(&b.allocs); na != 3 || nb != 3 {
+		c.Cov.Fail(Failure{Kind: "violated", Clause: "exactly-one-call-on-each-child", Signature: "c19conc-after-child-panic", Line: line,
+			Reply: fmt.Sprintf("three allocations on the multi reporter; child 0 saw %d, child 1 saw %d", na, nb)})
+		return
+	}
+	if sa, sb := atomic.LoadInt64(&a.sum), atomic.LoadInt64(&b.sum); sa != 5 || sb != 5 {
+		c.Cov.Fail(Failure{Kind: "violated", Clause: "value-reaches-every-child", Signature: "c19conc-after-child-panic", Line: line,
+			Reply: fmt.Sprintf("ReportCount(5) through a handle allocated after the fault: child 0 got %d, child 1 got %d", sa, sb)})
+		return
+	}
+	c.Cov.Hit("alloc-panic." + kinds[kind])
+	c.Cov.Eval(line, true)
+}
+
 func suiteC19Conc(c *Ctx) {
+	for k := 0; k < 4; k++ {
+		runC19AllocPanic(c, k)
+	}
 	runC19Caps(c, false)
 	runC19Caps(c, true)
-	c.Cov.Rule = "overlapping calls on a multi reporter (plain and cached, 1-4 counting children): the first Flush / report blocks inside child 0 while 1-3 further Flush and 0-3 report calls are issued from other goroutines, then it is released; oracle: every child has seen exactly as many Flush and counter calls, with the same values, as were made on the multi reporter; plus, per flavour, one scripted case: an answer of Capabilities() obtained earlier is read again while another caller is held inside a child's Capabilities() and must not have changed; every case nontrivial; distinct by configuration"
+	c.Cov.Rule = "overlapping calls on a multi reporter (plain and cached, 1-4 counting children): the first Flush / report blocks inside child 0 while 1-3 further Flush and 0-3 report calls are issued from other goroutines, then it is released; oracle: every child has seen exactly as many Flush and counter calls, with the same values, as were made on the multi reporter; plus a fault: a child panicking once inside each kind of allocation, recovered by the caller, after which further allocations and a report must reach every child; plus, per flavour, one scripted case: an answer of Capabilities() obtained earlier is read again while another caller is held inside a child's Capabilities() and must not have changed; every case nontrivial; distinct by configuration"
 	n := c.N(60, 600)
 	for i := 0; i < n; i++ {
 		runC19Conc(c, c.Rng.Fork())
